@@ -174,21 +174,29 @@ def adjustProcessCount (s : State) : State :=
 
 /-! ### Client side: `submit`, `shutdown` -/
 
+/-- The body of `submit` once the flags allow it: new future and work item under id `_queue_count`,
+`_work_ids.put`, `_queue_count += 1`, wake-up. -/
+def register (s : State) (arg : Nat) : State :=
+  { s with futures := s.futures ++ [⟨arg, .pending⟩],
+           pending_work_items := s.pending_work_items ++ [s.futures.length],
+           work_ids := s.work_ids ++ [s.futures.length],
+           wakeups := s.wakeups + 1 }
+
+/-- `_start_executor_manager_thread`. -/
+def startManager (s : State) : State :=
+  { s with mgr := if s.mgr = .notStarted then .running else s.mgr }
+
+/-- `_ensure_executor_running`. -/
+def ensureRunning (s : State) : State :=
+  startManager (if s.processes.length ≠ s.max_workers then adjustProcessCount s else s)
+
 /-- `ProcessPoolExecutor.submit`: the new state and the work id of the future, or the exception raised. -/
 def submit (s : State) (arg : Nat) : State × Except Exc Nat :=
   match s.flags.broken with
   | some b => (s, .error b)
   | none =>
     if s.flags.shutdown then (s, .error .shutdownExecutor)
-    else
-      let wid := s.futures.length
-      let s1 := { s with futures := s.futures ++ [⟨arg, .pending⟩],
-                         pending_work_items := s.pending_work_items ++ [wid],
-                         work_ids := s.work_ids ++ [wid],
-                         wakeups := s.wakeups + 1 }
-      -- `_ensure_executor_running`
-      let s2 := if s1.processes.length ≠ s1.max_workers then adjustProcessCount s1 else s1
-      ({ s2 with mgr := if s2.mgr = .notStarted then .running else s2.mgr }, .ok wid)
+    else (ensureRunning (register s arg), .ok s.futures.length)
 
 /-- `ProcessPoolExecutor.shutdown(wait, kill_workers)` up to (not including) the join of the manager thread:
 `flag_as_shutting_down(kill_workers)` and a wake-up. -/
